@@ -113,7 +113,22 @@ func engineNotebook(ctx *Ctx) {
 		h := NewHome(base)
 		mainCmds := vlib.StripCaches(vlib.GenCommands(r, vlib.DBSpec{N: 3 + r.Intn(8)}))
 		mainP := filepath.Join(base, "main.yml")
-		vlib.WriteYAML(mainP, mainCmds)
+		mainKind := "generated"
+		switch ctx.G(hI) % 8 {
+		case 3: // the shipped database as the main one (what a user has): thousands of entries before the notebook's
+			mainCmds = ctx.Shipped().Commands
+			mainP = ctx.ShippedPath()
+			mainKind = "shipped"
+		case 6: // a generated main database of a size just above a power of two
+			mainCmds = vlib.StripCaches(vlib.GenCommands(r, vlib.DBSpec{N: []int{512, 1024, 2048, 4096}[r.Intn(4)] + 1 + r.Intn(6), TieHeavy: true}))
+			mainKind = "generated-large"
+		}
+		if mainKind != "shipped" {
+			vlib.WriteYAML(mainP, mainCmds)
+		}
+		ctx.R.Path("main-"+mainKind, 1)
+		// the processor count the binary sees (a user's machine has 1 to hundreds)
+		procEnv := []string{"GOMAXPROCS=" + []string{"1", "2", "3", "4", "5", "6", "7", "8", "12", "16", "32", "64"}[r.Intn(12)]}
 		model := []c08Entry{}
 		start := []string{"missing", "empty-0-bytes", "empty-list", "populated"}[r.Intn(4)]
 		os.MkdirAll(filepath.Dir(h.Personal()), 0o755)
@@ -141,6 +156,41 @@ func engineNotebook(ctx *Ctx) {
 		}
 		if start == "missing" {
 			os.RemoveAll(filepath.Dir(h.Personal()))
+		}
+		if ctx.G(hI)%4 == 2 {
+			// the notebook path is a symbolic link (a dotfiles set-up): absolute target, relative target beside it, relative target in
+			// a sibling directory, or dangling. The binary runs in another working directory.
+			kind := []string{"absolute", "relative-same-dir", "relative-sibling-dir", "dangling"}[(ctx.G(hI)/4)%4]
+			cfg := filepath.Dir(h.Personal())
+			os.MkdirAll(cfg, 0o755)
+			var target, targetAbs string
+			switch kind {
+			case "absolute":
+				targetAbs = filepath.Join(base, "store", "work.yml")
+				target = targetAbs
+			case "relative-same-dir":
+				target, targetAbs = "work.yml", filepath.Join(cfg, "work.yml")
+			case "relative-sibling-dir":
+				target, targetAbs = filepath.Join("..", "nbstore", "work.yml"), filepath.Join(filepath.Dir(cfg), "nbstore", "work.yml")
+			default:
+				target, targetAbs = "gone.yml", ""
+				os.Remove(h.Personal())
+				model = model[:0]
+				start = "missing"
+			}
+			if targetAbs != "" {
+				os.MkdirAll(filepath.Dir(targetAbs), 0o755)
+				if data, err := os.ReadFile(h.Personal()); err == nil {
+					os.WriteFile(targetAbs, data, 0o644)
+					os.Remove(h.Personal())
+				} else {
+					os.WriteFile(targetAbs, []byte("[]\n"), 0o644)
+					start = "empty-list"
+				}
+			}
+			os.Symlink(target, h.Personal())
+			start += "+symlink-" + kind
+			ctx.R.Path("notebook-symlink-"+kind, 1)
 		}
 		steps := 5 + r.Intn(ctx.Pick(14, 36))
 		trace := []string{"start:" + start}
@@ -216,11 +266,11 @@ func engineNotebook(ctx *Ctx) {
 				}
 				args = append(args, "--", e.Command, e.Description)
 			}
-			cs := map[string]interface{}{"history": tail(trace, 10), "step": s, "args_quoted": fmt.Sprintf("%q", args), "start": start}
+			cs := map[string]interface{}{"history": tail(trace, 10), "step": s, "args_quoted": fmt.Sprintf("%q", args), "start": start, "main": mainKind, "env": procEnv}
 			ctx.R.Begin(cs)
 			ctx.R.Eval(1)
 			before, _ := os.ReadFile(h.Personal())
-			res := h.Wtf(ctx.Wtf, nil, args...)
+			res := h.Wtf(ctx.Wtf, procEnv, args...)
 			trace = append(trace, fmt.Sprintf("%q", args))
 			if bad, why := res.Crashed(); bad {
 				ctx.R.Violate(vlib.Violation{Property: "C08", Clause: "save-crashes", Path: "wtf " + args[0], Detail: why + ": " + vlib.Trunc(strings.TrimSpace(res.Stderr), 300),
@@ -312,6 +362,7 @@ func engineNotebook(ctx *Ctx) {
 						ok = c08Match(m.Commands[len(mainCmds)+i], model[i]) == ""
 					}
 					ctx.R.Path("merge-checked", 1)
+					ctx.R.Path("merge-checked-main-"+mainKind, 1)
 					if !ok {
 						ctx.R.Violate(vlib.Violation{Property: "C08", Clause: "merge", Path: "LoadDatabaseWithPersonal",
 							Detail: fmt.Sprintf("merged database (%d entries) is not main (%d) followed by notebook (%d) entries in order", len(m.Commands), len(mainCmds), len(model)), Witness: cs})
@@ -325,8 +376,9 @@ func engineNotebook(ctx *Ctx) {
 					word = kwMarker
 					ctx.R.Path("search-after-save-by-keyword", 1)
 				}
-				sres := h.Wtf(ctx.Wtf, nil, "--database", mainP, "--all-platforms", "--limit", "100", "--format", "json", "--no-color", "--", word)
+				sres := h.Wtf(ctx.Wtf, procEnv, "--database", mainP, "--all-platforms", "--limit", "100", "--format", "json", "--no-color", "--", word)
 				ctx.R.Path("search-after-save", 1)
+				ctx.R.Path("search-after-save-main-"+mainKind, 1)
 				if badS, why := sres.Crashed(); badS {
 					ctx.R.Violate(vlib.Violation{Property: "C08", Clause: "search-after-save-crashes", Path: "wtf search", Detail: why,
 						Witness: map[string]interface{}{"case": cs, "stderr": vlib.Trunc(sres.Stderr, 1500)}})
@@ -351,7 +403,7 @@ func engineNotebook(ctx *Ctx) {
 		if hI < 2 {
 			ctx.R.Sample(map[string]interface{}{"history": tail(trace, 6), "entries": len(model)})
 		}
-		ctx.R.Path("start-"+start, 1)
+		ctx.R.Path("start-"+strings.SplitN(start, "+", 2)[0], 1)
 		os.RemoveAll(base)
 	}
 }
